@@ -3,14 +3,25 @@
 impl : pysph.sph.wc.linalg  gj_solve / identity / dot / mat_mult / mat_vec_mult /
        augmented_matrix  (plain Python, scratch build of the repo) and the same
        functions transpiled by compyle inside a probe Equation (compiled path);
-       pysph.base.linalg3  py_eigen_decompose_eispack / py_transform_diag_inv
+       pysph.base.linalg3  py_eigen_decompose_eispack (= eigen_decomposition, the
+       routine solid_mech cimports), py_get_eigenvalues, py_get_eigenvalvec,
+       py_transform_diag_inv, run in child processes (a hang or crash of the
+       real code costs one case); tred2 / tql2 alone through a module that
+       textually includes the tree's linalg3.pyx and adds two wrappers
 model: lean PysphVerif.Model.GaussJordan at Float (bit-exact comparison) and at
-       exact rationals (self-test of the exact-field reading the theorems use)
+       exact rationals (self-test of the exact-field reading the theorems use);
+       lean PysphVerif.Model.Eigen3 at Float: eigen_decomposition, tred2, tql2,
+       get_eigenvalvec (dispatch from the eigenvalue triple of the real
+       py_get_eigenvalues), transform_diag_inv -- V and d compared BIT FOR BIT
 oracle: exact rational linear algebra (fractions.Fraction) written here,
        independent of model and code:  A non-singular and well away from the
        1e-12 guard  =>  gj_solve returns 0;  returned solutions satisfy
        |A x - b| <= C n^2 eps cond(A) |A| |x|;  helpers equal their definitions.
-       The eigen-solver is MONITORED (a test, not carried by proof).
+       Eigen: finite, V^T V = I, A V = V diag d, V diag d V^T = A within 1e-13
+       |A|, no exception, on what the REAL code returned.
+replays: theorems tred2_orthogonal_tridiagonal, tql2_decomposition (with the
+       dropped entries the model reports) and eig_scaling (c = 2^k) evaluated
+       on the outputs of the real code.
 """
 import json
 import math
@@ -192,19 +203,27 @@ def gen_helper(rng):
     return c
 
 
-def gen_sym(rng):
-    style = rng.choice(['random', 'random', 'diagonal', 'rank1', 'rank2',
-                        'repeated', 'repeated3', 'zero', 'int', 'near-diag',
-                        'tiny-offdiag', 'sparsity', 'sparsity', 'zero-diag'])
+SYM_STYLES = ['random', 'random', 'diagonal', 'rank1', 'rank2',
+              'repeated', 'repeated3', 'zero', 'int', 'near-diag',
+              'tiny-offdiag', 'sparsity', 'sparsity', 'zero-diag',
+              'shear-cancel', 'shear-cancel', 'tridiag', 'zero-row', 'block2',
+              'block2b', 'pow2', 'extreme', 'graded', 'graded']
+
+
+def gen_sym(rng, style=None):
+    style = style or rng.choice(SYM_STYLES)
     scale = rng.choice([1.0, 1.0, 10 ** rng.uniform(-8, 8), 1e-8, 1e8])
 
     def rot():
         q, _ = np.linalg.qr(np.array([[rng.gauss(0, 1) for _ in range(3)]
                                       for _ in range(3)]))
         return q
+
+    def sym_random():
+        m = np.array([[rnd_entry(rng) for _ in range(3)] for _ in range(3)])
+        return m + m.T
     if style == 'random':
-        a = np.array([[rnd_entry(rng) for _ in range(3)] for _ in range(3)])
-        a = a + a.T
+        a = sym_random()
     elif style == 'diagonal':
         a = np.diag([rnd_entry(rng) for _ in range(3)])
     elif style == 'rank1':
@@ -240,10 +259,66 @@ def gen_sym(rng):
         a = np.diag([rnd_entry(rng) for _ in range(3)])
         e = np.array([[rnd_entry(rng) for _ in range(3)] for _ in range(3)])
         a = a + 10 ** rng.uniform(-16, -6) * (e + e.T)
-    else:
+    elif style == 'tiny-offdiag':
         a = np.eye(3)
         i, j = rng.choice([(0, 1), (0, 2), (1, 2)])
         a[i][j] = a[j][i] = 10 ** rng.uniform(-12, -1)
+    elif style == 'shear-cancel':
+        # off-diagonal entries that cancel in a plain sum: A[2][0] == -A[2][1]
+        # (tred2 forms scale = |A20| + |A21| from the last row), also with a
+        # zero or arbitrary diagonal and with A[1][0] = -A[2][0]
+        a = sym_random() if rng.random() < 0.6 else np.zeros((3, 3))
+        t = rnd_entry(rng) or 0.5
+        a[2][0] = a[0][2] = t
+        a[2][1] = a[1][2] = -t
+        k = rng.randrange(4)
+        if k == 0:
+            a[1][0] = a[0][1] = -t
+        elif k == 1:
+            a[1][0] = a[0][1] = 0.0
+        elif k == 2:
+            a[1][0] = a[0][1] = t
+    elif style == 'tridiag':
+        # already tridiagonal: A[2][0] = 0
+        a = sym_random()
+        a[2][0] = a[0][2] = 0.0
+        if rng.random() < 0.3:
+            a[1][0] = a[0][1] = 0.0
+    elif style == 'zero-row':
+        a = sym_random()
+        k = rng.randrange(3)
+        a[k, :] = 0.0
+        a[:, k] = 0.0
+    elif style == 'block2':
+        # coupled leading 2x2 block, decoupled third direction (plane strain)
+        a = sym_random()
+        a[2][0] = a[0][2] = a[2][1] = a[1][2] = 0.0
+    elif style == 'block2b':
+        a = sym_random()
+        a[1][0] = a[0][1] = a[2][0] = a[0][2] = 0.0
+    elif style == 'pow2':
+        a = np.array([[float(rng.randint(-9, 9)) for _ in range(3)]
+                      for _ in range(3)])
+        a = (a + a.T) * 2.0 ** rng.randint(-60, 60)
+        scale = 1.0
+    elif style == 'extreme':
+        a = sym_random() if rng.random() < 0.7 else np.diag(
+            [rnd_entry(rng) for _ in range(3)]) + 1e-3 * sym_random()
+        scale = 10.0 ** rng.choice([-290, -200, -150, -100, -30, 30, 100, 150,
+                                    200, 290])
+    else:       # graded: entries of very different magnitude inside one matrix
+        a = np.zeros((3, 3))
+        for (i, j) in [(0, 0), (1, 1), (2, 2), (0, 1), (0, 2), (1, 2)]:
+            r = rng.random()
+            if r < 0.25:
+                v = 0.0
+            elif r < 0.5:
+                v = rnd_entry(rng)
+            else:
+                v = rng.choice([-1.0, 1.0]) * rng.uniform(1, 9.99) * \
+                    10.0 ** rng.randint(-290, -1)
+            a[i][j] = a[j][i] = v
+        scale = 1.0
     a = a * scale
     return {'kind': 'eig', 'style': style, 'A': [[float(v) for v in r] for r in a]}
 
@@ -700,51 +775,600 @@ def check_compiled(gj_cases, helper_cases, R, work, stats):
 
 
 # --------------------------------------------------------------------------
-# eigen-decomposition: monitored (a test, labelled as such)
+# eigen-decomposition (linalg3.pyx): bit-exact tie of Model/Eigen3.lean to the
+# real code + the property's own predicate evaluated on the real code
 
 EIG_TOL = 1e-13      # relative to |A|_max; orthonormality absolute
+EIG_FUEL = 200       # QL sweeps per eigenvalue the model allows (EISPACK: 30)
+BIG = 1e8            # literal of _nearly_diagonal
+HANG_S = 20.0        # no answer from the real code for this long = hang
+
+HYPOT_BODIES = {
+    # pinned
+    'return sqrt(x*x+y*y)': 'naive',
+    # proposed_fixes/C13-hypot2-overflow.diff
+    'cdef double r|if fabs(x) > fabs(y):|r = y/x|r = fabs(x)*sqrt(1 + r*r)|'
+    'elif y != 0:|r = x/y|r = fabs(y)*sqrt(1 + r*r)|else:|r = 0.0|return r': 'safe',
+}
 
 
-def run_eig(case):
+def hypot_variant():
+    """which body of hypot2 does the tree under test have?  Read from the
+    source that was compiled (comments and blank lines dropped); anything
+    else is 'unknown' (reported as a disagreement, tied against 'naive')."""
+    import pysph.base
+    import os
+    src = os.path.join(os.path.dirname(pysph.base.__file__), 'linalg3.pyx')
+    lines = open(src).read().split('\n')
+    body = []
+    inside = False
+    for ln in lines:
+        t = ln.split('#')[0].rstrip()
+        if t.startswith('cdef inline double hypot2('):
+            inside = True
+            continue
+        if inside:
+            if t and not t.startswith(' '):
+                break
+            if t.strip():
+                body.append(t.strip())
+    return HYPOT_BODIES.get('|'.join(body), 'unknown'), '|'.join(body)
+
+
+PROBE_PYX = '''
+# cython: language_level=3
+# distutils: language=c++
+include "%s"
+
+def probe_tred2(double[:,:] a):
+    cdef double[3][3] V
+    cdef double[3] d
+    cdef double[3] e
+    cdef int i, j
+    for i in range(3):
+        d[i] = 0.0
+        e[i] = 0.0
+        for j in range(3):
+            V[i][j] = a[i, j]
+    tred2(V, &d[0], &e[0])
+    return ([V[i][j] for i in range(3) for j in range(3)],
+            [d[i] for i in range(3)], [e[i] for i in range(3)])
+
+def probe_tql2(double[:,:] a, double[:] dd, double[:] ee):
+    cdef double[3][3] V
+    cdef double[3] d
+    cdef double[3] e
+    cdef int i, j
+    for i in range(3):
+        d[i] = dd[i]
+        e[i] = ee[i]
+        for j in range(3):
+            V[i][j] = a[i, j]
+    tql2(V, &d[0], &e[0])
+    return ([V[i][j] for i in range(3) for j in range(3)], [d[i] for i in range(3)])
+'''
+
+PROBE_SETUP = '''
+from setuptools import setup, Extension
+from Cython.Build import cythonize
+import numpy
+setup(ext_modules=cythonize([Extension('c13probe', ['c13probe.pyx'],
+      include_dirs=[numpy.get_include()], extra_compile_args=['-O3'],
+      define_macros=[('NPY_NO_DEPRECATED_API', 'NPY_1_7_API_VERSION')])], quiet=True))
+'''
+
+_PROBE = {}
+
+
+def build_probe(work):
+    """`tred2` and `tql2` are cdef functions without a Python wrapper: compile the
+    tree's own linalg3.pyx once more, textually `include`d into a module that adds
+    two wrappers (same source text, same compiler flags), so that the two halves
+    can be tied and replayed separately.  That this copy is the code of the
+    compiled pysph.base.linalg3 is checked on every case:
+    probe_tql2(probe_tred2(A/s)) * s == py_eigen_decompose_eispack(A), bit for bit."""
+    import os
+    import subprocess
+    if 'dir' in _PROBE:
+        return _PROBE['dir']
+    import pysph.base
+    src = os.path.join(os.path.dirname(pysph.base.__file__), 'linalg3.pyx')
+    d = os.path.join(work, 'c13probe')
+    os.makedirs(d, exist_ok=True)
+    with open(os.path.join(d, 'c13probe.pyx'), 'w') as fh:
+        fh.write(PROBE_PYX % src)
+    with open(os.path.join(d, 'setup_probe.py'), 'w') as fh:
+        fh.write(PROBE_SETUP)
+    r = subprocess.run([sys.executable, 'setup_probe.py', 'build_ext', '--inplace'],
+                       cwd=d, capture_output=True, text=True)
+    if r.returncode != 0:
+        raise SystemExit('cannot compile the tred2/tql2 probe from %s:\n%s' % (
+            src, (r.stdout + r.stderr)[-3000:]))
+    _PROBE['dir'] = d
+    return d
+
+
+def eig_worker(infile, outfile, start, probe_dir=None):
+    """child process: run the real code on case `start`, `start+1`, ... of
+    infile, one JSON answer per line (flushed), so that a hang or a crash of
+    the real code costs one case, not the run"""
     from pysph.base import linalg3
-    a = np.array(case['A'], dtype=float)
-    d, v = linalg3.py_eigen_decompose_eispack(a.copy())
-    rec = linalg3.py_transform_diag_inv(np.array(d, dtype=float).copy(),
-                                        np.array(v, dtype=float).copy())
-    return np.array(d), np.array(v), np.array(rec)
+    probe = None
+    if probe_dir:
+        sys.path.insert(0, probe_dir)
+        import c13probe as probe
+    events = []
+    sys.unraisablehook = lambda u: events.append(type(u.exc_value).__name__)
+    with open(outfile, 'a') as out:
+        for idx, line in enumerate(open(infile)):
+            if idx < start:
+                continue
+            a = np.array([H.bits2f(x) for x in line.split(',')],
+                         dtype=float).reshape(3, 3)
+            r = {}
+            del events[:]
+            try:
+                d, v = linalg3.py_eigen_decompose_eispack(a.copy())
+                r['d'] = [H.fbits(x) for x in d]
+                r['v'] = [H.fbits(x) for x in np.asarray(v).ravel()]
+            except Exception as e:      # noqa
+                r['raise'] = type(e).__name__
+            r['un'] = list(events)
+            del events[:]
+            try:
+                r['ev'] = [H.fbits(x) for x in linalg3.py_get_eigenvalues(a.copy())]
+                d2, v2 = linalg3.py_get_eigenvalvec(a.copy())
+                r['d2'] = [H.fbits(x) for x in d2]
+                r['v2'] = [H.fbits(x) for x in np.asarray(v2).ravel()]
+            except Exception as e:      # noqa
+                r['raise2'] = type(e).__name__
+            r['un2'] = list(events)
+            if 'd' in r:
+                try:
+                    rec = linalg3.py_transform_diag_inv(
+                        np.array(d, dtype=float).copy(), np.array(v, dtype=float).copy())
+                    r['rec'] = [H.fbits(x) for x in np.asarray(rec).ravel()]
+                except Exception as e:  # noqa
+                    r['raise3'] = type(e).__name__
+            if probe is not None:
+                # the two halves separately, on B = A / sum|a_ij| (what
+                # eigen_decomposition hands to tred2)
+                del events[:]
+                sa = 0.0
+                for x in a.ravel():
+                    sa += abs(float(x))
+                if sa != 0.0 and math.isfinite(sa):
+                    try:
+                        b = a / sa
+                        r['B'] = [H.fbits(x) for x in b.ravel()]
+                        tv, td, te = probe.probe_tred2(b.copy())
+                        r['tV'] = [H.fbits(x) for x in tv]
+                        r['td'] = [H.fbits(x) for x in td]
+                        r['te'] = [H.fbits(x) for x in te]
+                        qv, qd = probe.probe_tql2(np.array(tv, dtype=float).reshape(3, 3),
+                                                  np.array(td, dtype=float),
+                                                  np.array(te, dtype=float))
+                        r['qV'] = [H.fbits(x) for x in qv]
+                        r['qd'] = [H.fbits(x) for x in qd]
+                        r['qds'] = [H.fbits(x * sa) for x in qd]
+                    except Exception as e:      # noqa
+                        r['raise4'] = type(e).__name__
+                    r['un4'] = list(events)
+            out.write(json.dumps(r) + '\n')
+            out.flush()
 
 
-def eig_oracle(case, R, stats):
+def run_eig_impl(cases, work, tag='e', probe=True):
+    """the real code on every case, in child processes; a case on which the
+    child hangs (no answer for HANG_S seconds) or dies is marked and skipped"""
+    import os
+    import subprocess
+    import time
+    infile = os.path.join(work, 'eig-%s-in.txt' % tag)
+    outfile = os.path.join(work, 'eig-%s-out.jsonl' % tag)
+    with open(infile, 'w') as fh:
+        for c in cases:
+            fh.write(','.join(H.fbits(x) for r in c['A'] for x in r) + '\n')
+    res = []
+    while len(res) < len(cases):
+        start = len(res)
+        open(outfile, 'w').close()
+        p = subprocess.Popen([sys.executable, os.path.abspath(__file__),
+                              '--eig-worker', infile, outfile, str(start)] +
+                             ([build_probe(work)] if probe else []),
+                             stderr=subprocess.DEVNULL)
+        last = time.time()
+        size = 0
+        while True:
+            rc = p.poll()
+            n = os.path.getsize(outfile)
+            if n > size:
+                size = n
+                last = time.time()
+            if rc is not None:
+                break
+            if time.time() - last > HANG_S:
+                p.kill()
+                p.wait()
+                rc = 'hang'
+                break
+            time.sleep(0.02)
+        for g in open(outfile).read().split('\n'):
+            if not g:
+                continue
+            try:
+                res.append(json.loads(g))
+            except ValueError:      # line cut off by the kill
+                break
+        if len(res) < len(cases):
+            if rc == 0:
+                raise SystemExit('eigen worker stopped early without an error')
+            res.append({'hang': True} if rc == 'hang' else {'crash': rc})
+    return res
+
+
+def f_eq(x, y):
+    """bit patterns equal, any NaN equal to any NaN"""
+    if x == y:
+        return True
+    fx, fy = H.bits2f(x), H.bits2f(y)
+    return fx != fx and fy != fy
+
+
+def fl_eq(xs, ys):
+    return len(xs) == len(ys) and all(f_eq(x, y) for x, y in zip(xs, ys))
+
+
+def parse_eig_model(line):
+    """`ok V=.. d=.. log=..` | `err=..` -> dict"""
+    t = line.split()
+    if not t:
+        return {'bad': line}
+    if t[0] == 'ok':
+        kv = dict(x.split('=', 1) for x in t[1:])
+        return {'V': kv['V'].split(','), 'd': kv['d'].split(','),
+                'log': [] if kv['log'] == '_' else [int(x) for x in kv['log'].split(',')],
+                'drops': [] if kv.get('drops', '_') == '_' else kv['drops'].split(',')}
+    if t[0].startswith('err='):
+        return {'err': ' '.join(t)}
+    return {'bad': line}
+
+
+def finite_bits(xs):
+    return all(math.isfinite(H.bits2f(x)) for x in xs)
+
+
+def log_counts(R, log):
+    """distribution of the paths the model (= the code, bit for bit) took"""
+    for code in log:
+        if code in (400, 401, 500):
+            R.count({400: 'eigpath:zero_matrix_case', 401: 'eigpath:scaled+tred2+tql2',
+                     500: 'eigpath:diagonal-fast'}[code])
+        elif 100 <= code < 200:
+            R.count('tred2:i=%d:%s' % ((code - 100) // 10,
+                                       'householder' if code % 10 else 'scale==0'))
+        elif 200 <= code < 300:
+            R.count('tred2:accumulate i=%d:%s' % ((code - 200) // 10,
+                                                  'h!=0' if code % 10 else 'h==0'))
+        elif 300 <= code < 400:
+            R.count('tql2:sort swap')
+        elif code >= 100000:
+            c = code - 100000
+            l, m, it = c // 10000, (c // 1000) % 10, c % 1000
+            R.count('tql2:l=%d m=%d sweeps=%s' % (l, m, it if it < 6 else '6+'))
+
+
+def eig_property(case, r, R, stats):
+    """the property's own predicate on what the REAL code returned
+    (independent of the model): finite, V^T V = I, A V = V diag(d),
+    V diag(d) V^T = A (through py_transform_diag_inv), no exception"""
     a = np.array(case['A'], dtype=float)
-    try:
-        d, v, rec = run_eig(case)
-    except Exception as e:      # noqa
-        R.prop_fail('C13:eig:raises', case, 'returns', type(e).__name__)
-        return
-    sc = float(np.max(np.abs(a)))
     key = 'C13:eig:' + case['style']
+    sc = float(np.max(np.abs(a)))
+    R.count('eig:' + case['style'])
+    R.case(json.dumps(case, sort_keys=True), sc > 0, None)
+    if r.get('hang'):
+        R.prop_fail(key, case, 'returns', 'no answer within %gs (killed)' % HANG_S)
+        return
+    if 'crash' in r:
+        R.prop_fail(key, case, 'returns', 'process died, exit code %r' % (r['crash'],))
+        return
+    if 'raise' in r:
+        R.prop_fail(key, case, 'returns', r['raise'])
+        return
+    d = np.array([H.bits2f(x) for x in r['d']])
+    v = np.array([H.bits2f(x) for x in r['v']]).reshape(3, 3)
+    if r['un']:
+        R.prop_fail(key, case, 'no exception inside eigen_decomposition',
+                    'unraisable %s; d=%r V=%r' % (r['un'], d.tolist(), v.tolist()))
+        return
     if not (np.all(np.isfinite(d)) and np.all(np.isfinite(v))):
         R.prop_fail(key, case, 'finite d, V', 'd=%r V=%r' % (d.tolist(), v.tolist()))
         return
-    orth = float(np.max(np.abs(v.T @ v - np.eye(3))))
-    resid = float(np.max(np.abs(a @ v - v * d[None, :])))
-    recon = float(np.max(np.abs(rec - a)))
+    if 'raise3' in r:
+        R.prop_fail('C13:eig:transform_diag_inv', case, 'returns', r['raise3'])
+        return
+    rec = np.array([H.bits2f(x) for x in r['rec']]).reshape(3, 3)
+    with np.errstate(all='ignore'):
+        orth = float(np.max(np.abs(v.T @ v - np.eye(3))))
+        # residuals relative to |A|: computed on A/|A| so that |A| near the
+        # ends of the double range does not overflow the test itself
+        an = a / sc if sc > 0 else a
+        dn = d / sc if sc > 0 else d
+        resid = float(np.max(np.abs(an @ v - v * dn[None, :])))
+        recon = float(np.max(np.abs((rec / sc if sc > 0 else rec) - an)))
     stats['eig_orth'] = max(stats.get('eig_orth', 0.0), orth)
     if sc > 0:
-        stats['eig_resid'] = max(stats.get('eig_resid', 0.0), resid / sc)
-        stats['eig_recon'] = max(stats.get('eig_recon', 0.0), recon / sc)
-    if orth > EIG_TOL:
+        stats['eig_resid'] = max(stats.get('eig_resid', 0.0), resid)
+        stats['eig_recon'] = max(stats.get('eig_recon', 0.0), recon)
+    if not orth <= EIG_TOL:
         R.prop_fail(key, case, 'V^T V = I within %g' % EIG_TOL,
                     'max|V^T V - I| = %.3g, V=%r' % (orth, v.tolist()))
-    elif resid > EIG_TOL * sc:
+    elif not resid <= EIG_TOL:
         R.prop_fail(key, case, 'A V = V diag(d) within %g |A|' % EIG_TOL,
-                    'max|A V - V d| = %.3g (|A| = %.3g), d=%r' % (resid, sc, d.tolist()))
-    elif recon > EIG_TOL * sc:
+                    'max|A V - V d| = %.3g |A| (|A| = %.3g), d=%r' % (resid, sc, d.tolist()))
+    elif not recon <= EIG_TOL:
         R.prop_fail('C13:eig:transform_diag_inv', case,
                     'py_transform_diag_inv(d, V) = A within %g |A|' % EIG_TOL,
-                    'max diff %.3g' % recon)
-    R.count('eig:' + case['style'])
-    R.case(json.dumps(case, sort_keys=True), sc > 0, None)
+                    'max diff %.3g |A|' % recon)
+    elif not (d[0] <= d[1] <= d[2]):
+        # not demanded by the property; the docstring of tql2 promises it
+        R.note('eigenvalues not ascending for %r: %r' % (case['A'], d.tolist()))
+    # get_eigenvalvec is not the routine the equations use: monitored only
+    if 'd2' in r:
+        d2 = np.array([H.bits2f(x) for x in r['d2']])
+        v2 = np.array([H.bits2f(x) for x in r['v2']]).reshape(3, 3)
+        with np.errstate(all='ignore'):
+            bad = not (np.all(np.isfinite(d2)) and np.all(np.isfinite(v2))) or \
+                not float(np.max(np.abs(v2.T @ v2 - np.eye(3)))) <= EIG_TOL or \
+                not float(np.max(np.abs(an @ v2 - v2 * (d2 / sc if sc > 0 else d2)[None, :]))) <= EIG_TOL
+        if bad:
+            stats['get_eigenvalvec_not_a_decomposition'] = \
+                stats.get('get_eigenvalvec_not_a_decomposition', 0) + 1
+    elif 'raise2' in r:
+        stats['get_eigenvalvec_raises'] = stats.get('get_eigenvalvec_raises', 0) + 1
+
+
+def check_eig(cases, R, stats, work, tag='e', hyp=None):
+    """tie + property on a list of symmetric matrices"""
+    if hyp is None:
+        hyp, body = hypot_variant()
+        if hyp == 'unknown':
+            R.disagree({'hypot2': body}, 'hypotNaive | hypotSafe', body,
+                       'body of hypot2 in linalg3.pyx is neither the pinned nor the repaired one')
+            hyp = 'naive'
+        R.count('hypot2 body in the tree: ' + hyp)
+    impl = run_eig_impl(cases, work, tag)
+    eps = H.fbits(EPS)
+    lines = []
+    idx = []
+    for k, (c, r) in enumerate(zip(cases, impl)):
+        flat = H.flist([x for row in c['A'] for x in row])
+        lines.append('eig hyp=%s eps=%s fuel=%d A=%s' % (hyp, eps, EIG_FUEL, flat))
+        idx.append((k, 'eig'))
+        if 'ev' in r:
+            lines.append('eigvv hyp=%s eps=%s big=%s fuel=%d A=%s ev=%s' % (
+                hyp, eps, H.fbits(BIG), EIG_FUEL, flat, ','.join(r['ev'])))
+            idx.append((k, 'eigvv'))
+        if 'rec' in r:
+            lines.append('tdi d=%s P=%s' % (','.join(r['d']), ','.join(r['v'])))
+            idx.append((k, 'tdi'))
+        if 'tV' in r:
+            lines.append('tred2 V=%s' % ','.join(r['B']))
+            idx.append((k, 'tred2'))
+        if 'qV' in r and finite_bits(r['tV'] + r['td'] + r['te']):
+            lines.append('tql2 hyp=%s eps=%s fuel=%d V=%s d=%s e=%s' % (
+                hyp, eps, EIG_FUEL, ','.join(r['tV']), ','.join(r['td']), ','.join(r['te'])))
+            idx.append((k, 'tql2'))
+    out = H.run_model('C13', lines)
+    if len(out) != len(lines):
+        raise SystemExit('model driver answered %d of %d lines' % (len(out), len(lines)))
+    for (k, what), o in zip(idx, out):
+        c, r = cases[k], impl[k]
+        if what == 'eig':
+            eig_property(c, r, R, stats)
+            m = parse_eig_model(o)
+            if 'bad' in m:
+                R.disagree(c, o, None, 'eig: model line not understood')
+                continue
+            if 'log' in m:
+                log_counts(R, m['log'])
+            if r.get('hang'):
+                if 'err' in m and 'noconv' in m['err']:
+                    R.count('tie: code hangs, model runs out of fuel')
+                else:
+                    R.disagree(c, o, 'hang', 'eig: the code does not return, the model does')
+            elif 'crash' in r or 'raise' in r:
+                R.disagree(c, o, r, 'eig: the code died/raised')
+            elif r['un']:
+                # Cython's checked division aborted tql2: the model divides
+                # as IEEE does and must then show a non-finite result
+                if 'err' in m or not (finite_bits(m['V']) and finite_bits(m['d'])):
+                    R.count('tie: ZeroDivisionError in the code, non-finite in the model')
+                else:
+                    R.disagree(c, o, r, 'eig: the code reported %s, the model result is finite' % r['un'])
+            elif 'err' in m and 'mout' in m['err'] and not (finite_bits(r['d']) and finite_bits(r['v'])):
+                # a NaN makes every `fabs(e[m]) <= eps*tst1` false: the code
+                # then reads d[n] (out of bounds), the model reports m = n
+                R.count('tie: NaN in the code, search for m runs off the end in the model')
+            elif 'err' in m:
+                R.disagree(c, o, r, 'eig: the model reports %s, the code returned' % m['err'])
+            elif not (fl_eq(m['V'], r['v']) and fl_eq(m['d'], r['d'])):
+                R.disagree(c, {'V': m['V'], 'd': m['d']}, {'V': r['v'], 'd': r['d']},
+                           'eig: V, d differ bit for bit (eigen_decomposition)')
+            else:
+                R.count('tie: eigen_decomposition bit-exact')
+        elif what == 'eigvv':
+            if 'd2' not in r:
+                R.count('eigvv: get_eigenvalvec raised (not tied)')
+                continue
+            t = o.split()
+            if t and t[0] == 'path=diag':
+                kv = dict(x.split('=', 1) for x in t[1:])
+                if fl_eq(kv['V'].split(','), r['v2']) and fl_eq(kv['d'].split(','), r['d2']):
+                    R.count('tie: get_eigenvalvec diagonal fast path bit-exact')
+                else:
+                    R.disagree(c, o, {'V': r['v2'], 'd': r['d2']}, 'eigvv: diagonal fast path')
+                log_counts(R, [500])
+            elif t and t[0] == 'path=iter':
+                m = parse_eig_model(' '.join(t[1:]))
+                if r['un2'] or 'err' in m or 'bad' in m:
+                    if 'V' in m and finite_bits(m['V']) and finite_bits(m['d']):
+                        R.disagree(c, o, r, 'eigvv: the code reported %s' % r['un2'])
+                    else:
+                        R.count('eigvv: iterative path, not finite / exception on both sides')
+                elif fl_eq(m['V'], r['v2']) and fl_eq(m['d'], r['d2']):
+                    R.count('tie: get_eigenvalvec iterative path bit-exact (dispatch from py_get_eigenvalues)')
+                else:
+                    R.disagree(c, {'V': m['V'], 'd': m['d']}, {'V': r['v2'], 'd': r['d2']},
+                               'eigvv: iterative path / use_iter decision')
+            elif t and t[0] == 'path=closed':
+                dm = t[1].split('=', 1)[1].split(',')
+                if fl_eq(dm, r['d2']):
+                    R.count('tie: get_eigenvalvec closed-form path, eigenvalues only (vectors not modelled)')
+                else:
+                    R.disagree(c, o, {'d': r['d2']}, 'eigvv: closed-form path returns other eigenvalues')
+            else:
+                R.disagree(c, o, None, 'eigvv: model line not understood')
+        elif what == 'tdi':
+            if fl_eq(o.split(','), r['rec']):
+                R.count('tie: transform_diag_inv bit-exact')
+            else:
+                R.disagree(c, o, r['rec'], 'tdi: transform_diag_inv')
+        elif what == 'tred2':
+            kv = dict(x.split('=', 1) for x in o.split())
+            if fl_eq(kv['V'].split(','), r['tV']) and fl_eq(kv['d'].split(','), r['td']) \
+                    and fl_eq(kv['e'].split(','), r['te']):
+                R.count('tie: tred2 alone bit-exact (probe)')
+            else:
+                R.disagree(c, o, {'V': r['tV'], 'd': r['td'], 'e': r['te']},
+                           'tred2: V, d, e differ bit for bit')
+            replay_tred2(c, r, R, stats)
+        elif what == 'tql2':
+            m = parse_eig_model(o)
+            if r.get('un4'):
+                if 'V' in m and finite_bits(m['V']) and finite_bits(m['d']):
+                    R.disagree(c, o, r['un4'], 'tql2: the code reported an exception')
+                else:
+                    R.count('tie: tql2 alone, exception in the code / non-finite in the model')
+            elif 'V' in m and fl_eq(m['V'], r['qV']) and fl_eq(m['d'], r['qd']):
+                R.count('tie: tql2 alone bit-exact (probe)')
+                replay_tql2(c, r, m, R, stats)
+            elif 'err' in m and not (finite_bits(r['qV']) and finite_bits(r['qd'])):
+                R.count('tie: tql2 alone, NaN in the code / error in the model')
+            else:
+                R.disagree(c, o, {'V': r['qV'], 'd': r['qd']}, 'tql2: V, d differ bit for bit')
+            # the probe is the same code as the compiled module
+            if 'd' in r and not r['un'] and not r.get('un4'):
+                if fl_eq(r['qV'], r['v']) and fl_eq(r['qds'], r['d']):
+                    R.count('probe == compiled module: tql2(tred2(A/s))*s == eigen_decomposition(A)')
+                else:
+                    R.disagree(c, {'V': r['qV'], 'd': r['qds']}, {'V': r['v'], 'd': r['d']},
+                               'the include-probe of linalg3.pyx and the compiled '
+                               'pysph.base.linalg3 disagree')
+    return impl
+
+
+REPLAY_TOL = 2e-14
+
+
+def replay_tred2(c, r, R, stats):
+    """theorem `tred2_orthogonal_tridiagonal` replayed on what the REAL tred2
+    returned for B = A/s (|B|_1 = 1): V^T V = I, V T V^T = B up to rounding"""
+    if not finite_bits(r['tV'] + r['td'] + r['te']):
+        return
+    b = np.array([H.bits2f(x) for x in r['B']]).reshape(3, 3)
+    v = np.array([H.bits2f(x) for x in r['tV']]).reshape(3, 3)
+    d = [H.bits2f(x) for x in r['td']]
+    e = [H.bits2f(x) for x in r['te']]
+    t = np.array([[d[0], e[1], 0.0], [e[1], d[1], e[2]], [0.0, e[2], d[2]]])
+    orth = float(np.max(np.abs(v.T @ v - np.eye(3))))
+    sim = float(np.max(np.abs(v @ t @ v.T - b)))
+    stats['replay_tred2_orth'] = max(stats.get('replay_tred2_orth', 0.0), orth)
+    stats['replay_tred2_sim'] = max(stats.get('replay_tred2_sim', 0.0), sim)
+    if orth <= REPLAY_TOL and sim <= REPLAY_TOL and e[0] == 0.0:
+        R.count('replay tred2_orthogonal_tridiagonal on the code: V^T V = I, V T V^T = A/s')
+    else:
+        R.disagree(c, 'V^T V = I and V T V^T = A/s within %g' % REPLAY_TOL,
+                   {'orth': orth, 'sim': sim, 'V': v.tolist(), 'd': d, 'e': e},
+                   'theorem tred2_orthogonal_tridiagonal replayed on the code (tred2 alone)')
+
+
+def replay_tql2(c, r, m, R, stats):
+    """theorem `tql2_decomposition` replayed on what the REAL tql2 returned:
+    V0 T0 V0^T = V diag(d) V^T + sum of the dropped entries (taken from the model,
+    which agreed bit for bit), each of which contributes at most |x| to an entry"""
+    if not (finite_bits(r['qV']) and finite_bits(r['qd'])):
+        return
+    v0 = np.array([H.bits2f(x) for x in r['tV']]).reshape(3, 3)
+    d0 = [H.bits2f(x) for x in r['td']]
+    e0 = [H.bits2f(x) for x in r['te']]
+    t0 = np.array([[d0[0], e0[1], 0.0], [e0[1], d0[1], e0[2]], [0.0, e0[2], d0[2]]])
+    v = np.array([H.bits2f(x) for x in r['qV']]).reshape(3, 3)
+    d = np.array([H.bits2f(x) for x in r['qd']])
+    drops = sum(abs(H.bits2f(x)) for x in m['drops'])
+    lhs = v0 @ t0 @ v0.T
+    rhs = (v * d[None, :]) @ v.T
+    err = float(np.max(np.abs(lhs - rhs)))
+    orth = float(np.max(np.abs(v.T @ v - np.eye(3))))
+    stats['replay_tql2_excess'] = max(stats.get('replay_tql2_excess', 0.0), err - 2 * drops)
+    stats['replay_tql2_drops'] = max(stats.get('replay_tql2_drops', 0.0), drops)
+    if err <= 2 * drops + REPLAY_TOL and orth <= REPLAY_TOL and d[0] <= d[1] <= d[2]:
+        R.count('replay tql2_decomposition on the code: V0 T0 V0^T = V diag d V^T + dropped')
+    else:
+        R.disagree(c, 'reconstruction error <= 2*sum|dropped| + %g, V^T V = I, d ascending' % REPLAY_TOL,
+                   {'err': err, 'drops': drops, 'orth': orth, 'd': d.tolist()},
+                   'theorem tql2_decomposition replayed on the code (tql2 alone)')
+
+
+
+def check_scaling_replay(cases, impl, R, stats, work):
+    """theorem-side replay of `eig_scaling` on the REAL code: for c = 2^k
+    (no over/underflow) eigen_decomposition(c A) returns the same V bit for
+    bit and d scaled by c exactly."""
+    rng = random.Random(len(cases))
+    sel = [k for k, r in enumerate(impl) if 'd' in r and not r['un']
+           and finite_bits(r['d']) and finite_bits(r['v'])]
+    sel = [k for k in sel if 1e-100 < max(abs(x) for row in cases[k]['A'] for x in row) < 1e100
+           and min([abs(x) for row in cases[k]['A'] for x in row if x != 0.0] or [1.0]) > 1e-100]
+    sel = sel[:600]
+    scaled = []
+    for k in sel:
+        c = 2.0 ** rng.randint(-40, 40)
+        scaled.append({'kind': 'eig', 'style': cases[k]['style'], 'c': c,
+                       'A': [[x * c for x in row] for row in cases[k]['A']]})
+    res = run_eig_impl(scaled, work, 'scal', probe=False)
+    for k, sc_case, r in zip(sel, scaled, res):
+        c = sc_case['c']
+        base = impl[k]
+        want_d = [H.fbits(H.bits2f(x) * c) for x in base['d']]
+        if 'd' in r and fl_eq(r['v'], base['v']) and fl_eq(r['d'], want_d):
+            R.count('replay eig_scaling on the code: V equal, d scaled (2^k)')
+        else:
+            R.disagree({'A': cases[k]['A'], 'c': c}, {'V': base['v'], 'd': want_d},
+                       {'V': r.get('v'), 'd': r.get('d')},
+                       'theorem eig_scaling replayed on the code: eigen_decomposition(c A) '
+                       '!= (V, c d) for c = 2^k')
+
+
+def eig_corpus():
+    """minimised past failures / the shapes past seeded defects needed"""
+    z = lambda A, style: {'kind': 'eig', 'style': style,  # noqa
+                          'A': [[float(x) for x in r] for r in A]}
+    t = 0.3
+    return [
+        z([[0, t, 0], [t, 0, 0], [0, 0, 0]], 'zero-diag'),          # seed B: hollow
+        z([[1, 2, 0], [2, -1, 0], [0, 0, 3]], 'block2'),            # seed B2: l=0, m=1
+        z([[1, 0.5, t], [0.5, 2, -t], [t, -t, 3]], 'shear-cancel'),  # seed B3
+        z([[0, 0, t], [0, 0, -t], [t, -t, 0]], 'shear-cancel'),
+        z([[2, 1, 0], [1, 2, 1], [0, 1, 2]], 'tridiag'),
+        z([[0, 0, 0], [0, 0, 0], [0, 0, 0]], 'zero'),
+        z([[1, 0, 0], [0, 1, 0], [0, 0, 1]], 'repeated3'),
+        z([[1e-169, 1e-169, 0], [1e-169, 1e-169, 0], [0, 0, 1e-169]], 'extreme'),
+        # finding C13:eig:graded (proposed_fixes/C13-hypot2-overflow.diff)
+        z([[0, 1e-155, 0], [1e-155, 1, 0], [0, 0, 1]], 'graded'),
+        z([[0, 1e-170, 0], [1e-170, 0, 0], [0, 0, 1]], 'graded'),
+    ]
 
 
 # --------------------------------------------------------------------------
@@ -777,7 +1401,9 @@ def replay_case(case, R, work):
     compiled = case.get('path') == 'compiled'
     case = {kk: v for kk, v in case.items() if kk != 'path'}
     if k == 'eig':
-        eig_oracle(case, R, stats)
+        check_eig([case], R, stats, work, 'replay')
+        for d in R.d['disagreements']:
+            print('disagreement:', json.dumps(d)[:1500])
     elif compiled:
         check_compiled([case] if k == 'gj' else [], [] if k == 'gj' else [case], R,
                        work, stats)
@@ -788,6 +1414,10 @@ def replay_case(case, R, work):
 
 
 def main():
+    if sys.argv[1:2] == ['--eig-worker']:
+        eig_worker(sys.argv[2], sys.argv[3], int(sys.argv[4]),
+                   sys.argv[5] if len(sys.argv) > 5 else None)
+        return
     a = H.args()
     R = H.Result(
         'cases = gj_solve systems (n=1..6, nb=1..n, 13 styles: random, small-integer, '
@@ -795,7 +1425,9 @@ def main():
         'row/column scaled, singular, near-singular, triangular, zero diagonal) run '
         'through the Python function and through the transpiled function; helper calls '
         '(identity, dot, mat_mult, mat_vec_mult, augmented_matrix with nmax>=n); '
-        'symmetric 3x3 matrices for the monitored eigen-solver; distinct = distinct '
+        'symmetric 3x3 matrices (24 styles incl. sign-cancelling off-diagonals, tridiagonal, '
+        'zero rows, 2x2 blocks, graded, scaled 1e-290..1e290) through eigen_decomposition / '
+        'get_eigenvalvec / transform_diag_inv and the Lean model, bit for bit; distinct = distinct '
         'case JSON per path; non-trivial = n >= 2 (gj, helpers) / non-zero matrix (eig)')
     if a.replay:
         rp = json.load(open(a.replay))
@@ -827,10 +1459,15 @@ def main():
         import traceback
         traceback.print_exc()
         raise SystemExit('transpiled path could not be built/run: %r' % (e,))
-    # monitored eigen-solver
+    # eigen-solver: bit-exact tie + the property's predicate on the real code
     rng3 = random.Random(a.seed * 104729 + 3)
-    for _ in range(2000 if quick else 40000):
-        eig_oracle(gen_sym(rng3), R, stats)
+    neig = 4000 if quick else 60000
+    ecases = eig_corpus() + [gen_sym(rng3) for _ in range(neig)]
+    R.count('eig corpus', len(eig_corpus()))
+    eimpl = []
+    for i in range(0, len(ecases), 10000):
+        eimpl += check_eig(ecases[i:i + 10000], R, stats, a.work, 'e%d' % i)
+    check_scaling_replay(ecases, eimpl, R, stats, a.work)
     if a.broken or R.d['disagreements']:
         rng2 = random.Random(a.seed + 12345)
         before = len(R.d['property_failures'])
@@ -839,11 +1476,19 @@ def main():
         for c in extra:
             im = run_gj_impl(c)
             gj_oracle(c, im, R2, stats)
-        R.d['search'] = {'extra_cases': 6000, 'aimed_at': 'gj_solve on the real code',
-                         'found': len(R.d['property_failures']) - before}
+        found_gj = len(R.d['property_failures']) - before
+        # eigen-solver: the property's predicate alone on many more matrices
+        before = len(R.d['property_failures'])
+        extra_e = [gen_sym(rng2) for _ in range(20000)]
+        for c, r in zip(extra_e, run_eig_impl(extra_e, a.work, 'search', probe=False)):
+            eig_property(c, r, R, stats)
+        R.d['search'] = {'extra_cases': 6000 + len(extra_e),
+                         'aimed_at': 'gj_solve and eigen_decomposition on the real code '
+                                     '(property predicate only)',
+                         'found': found_gj + len(R.d['property_failures']) - before}
     R.note('measured on this run: %s' % json.dumps(stats))
-    R.note('eigen-decomposition (linalg3.pyx) is MONITORED by test on generated '
-           'symmetric matrices, not carried by proof')
+    R.note('get_eigenvalvec (not used by the equations) is monitored only: see '
+           'get_eigenvalvec_* in the measured stats')
     R.write(a.out)
 
 
